@@ -650,6 +650,16 @@ def stream_eq(ctx, programs):
         except Exception as e:
             disagree(ctx, 'eq/encode', f'{text}: {type(e).__name__} {e}', {'kind': 'eq', 'query': text})
             continue
+        # the symbol a query atom reports is the head it was written with: `A`, `M`, the element, the comma list
+        if text.startswith('[') and text.split()[0].endswith(']'):
+            d = doc_parse_atom(text.split()[0][1:-1])
+            if d is not None:
+                from chython.periodictable import Element
+                names = {c.atomic_number.fget(None): c.__name__ for c in Element.__subclasses__()}
+                h = d['head']
+                want = {'A'} if h == 'any' else {'M'} if h == 'metal' else {names[h[1]]} if h[0] == 'element' else {names[z] for z in h[1]}
+                if set(q.atomic_symbol.split(',')) != want:
+                    ctx.fail('C08/query-atom-symbol', f'{text}: atomic_symbol {q.atomic_symbol!r}, written head {sorted(want)}', {'kind': 'accept', 'smarts': text})
         if len(all_envs) <= cap:
             envs = all_envs
         else:   # rotate through the environment table so that every environment meets queries of every family
